@@ -325,6 +325,36 @@ Section WfA.
   Qed.
 End WfA.
 
+(* ---- skeletons: the part of a trace the forest looks at (generation fields and content ids erased) ---- *)
+Lemma nth_N_map {A B} (g : A -> B) (l : list A) p : nth_N (map g l) p = option_map g (nth_N l p).
+Proof.
+  unfold nth_N. rewrite map_length. destruct (p <? N.of_nat (length l)); [|reflexivity]. apply nth_error_map.
+Qed.
+Lemma len_N_map {A B} (g : A -> B) (l : list A) : len_N (map g l) = len_N l.
+Proof. unfold len_N. now rewrite map_length. Qed.
+Lemma set_nth_same {A} (l : list A) i x : nth_error l i = Some x -> set_nth l i x = l.
+Proof. revert i. induction l; destruct i; simpl; intros H; try discriminate; [inversion H; reflexivity|]. f_equal. now apply IHl. Qed.
+
+Section Skel.
+  Variable C : Type.
+  Definition norm (s : state C) : state unit :=
+    match s with SPar l r => SPar l r | SFold lo => SFold lo | _ => SCanon (CanonRequestSentBy EmptyString) end.
+  Lemma norm_leaf s : is_leaf unit (norm s) = is_leaf C s.
+  Proof. destruct s; reflexivity. Qed.
+  Lemma forest_norm t a b : forest unit (map norm t) a b -> forest C t a b.
+  Proof.
+    remember (map norm t) as u eqn:U.
+    induction 1 as [a | a b s Hn Hl H1 IH1 | a b l r Hn H1 IH1 H2 IH2 H3 IH3 | a b lore e Hn Hlo H1 IH1 H2 IH2]; subst u.
+    - constructor.
+    - rewrite nth_N_map in Hn. destruct (nth_N t a) as [s0|] eqn:E; [|discriminate]. inversion Hn. subst s.
+      econstructor 2; [exact E| |now apply IH1]. now rewrite <- norm_leaf.
+    - rewrite nth_N_map in Hn. destruct (nth_N t a) as [s0|] eqn:E; [|discriminate]. inversion Hn as [Hs].
+      destruct s0; simpl in Hs; try discriminate. inversion Hs. subst. econstructor 3; eauto.
+    - rewrite nth_N_map in Hn. destruct (nth_N t a) as [s0|] eqn:E; [|discriminate]. inversion Hn as [Hs].
+      destruct s0; simpl in Hs; try discriminate. inversion Hs. subst. econstructor 4; eauto.
+  Qed.
+End Skel.
+
 (* ===================================================================== *)
 (* Part B: the effect of every TraceHandler API call on (result trace, par stack, fold FSMs) *)
 
@@ -669,6 +699,30 @@ Section WfB.
   Proof. apply folds_get_filter_same. Qed.
   Lemma folds_get_del_other m id id' : id' <> id -> folds_get (folds_del m id) id' = folds_get m id'.
   Proof. apply folds_get_filter. Qed.
+
+  (* what one update does *)
+  Definition regen (s s' : state) : Prop :=
+    match s, s' with
+    | SAp _, SAp [_] => True
+    | SCall (Executed (VRStream c _)), SCall (Executed (VRStream c' _)) => c = c'
+    | _, _ => False
+    end.
+  Lemma update_generation_spec h p g h' :
+    update_generation C h p g = inl h' ->
+    exists s s', nth_N (rt h) p = Some s /\ regen s s' /\ rt h' = set_nth (rt h) (N.to_nat p) s' /\
+      state_no_stub C s' = negb (g =? generation_stub) /\ h_pars C h' = h_pars C h /\ h_folds C h' = h_folds C h.
+  Proof.
+    unfold update_generation. fold (rt h). destruct (nth_N (rt h) p) as [s|] eqn:E; [|discriminate].
+    destruct s as [| [ | [ | c g0 | ] | ] | gens | | ]; try discriminate; intros H; inversion H; subst; clear H.
+    - exists (SCall (Executed (VRStream c g0))), (SCall (Executed (VRStream c g))). repeat split; auto.
+    - exists (SAp gens), (SAp [g]). repeat split; auto. simpl. now rewrite andb_true_r.
+  Qed.
+  Lemma regen_stream s s' : regen s s' -> is_stream_state C s = true /\ is_stream_state C s' = true /\ norm C s = norm C s'.
+  Proof.
+    destruct s as [| [ | [ | c g0 | ] | ] | gens | | ]; destruct s' as [| [ | [ | c' g1 | ] | ] | [|g1 [|]] | | ]; simpl; intros H;
+      try contradiction; auto.
+  Qed.
+
 End WfB.
 
 (* ===================================================================== *)
@@ -681,7 +735,6 @@ Section WfC.
   Notation trace := (list state).
   Notation handler := (handler C).
   Notation rt := (rt C).
-  Notation sforest := (sforest C).
 
   Definition nlen (h : handler) : N := len_N (rt h).
 
@@ -877,8 +930,19 @@ Section WfC.
   Qed.
 
   (* ---- closed pieces ---- *)
+  (* the skeleton of the result trace: update_generation does not change it *)
+  Definition skt (h : handler) : list (Trace.state unit) := map (norm C) (rt h).
+  Lemma nlen_skt h : nlen h = len_N (skt h).
+  Proof. unfold nlen, skt. now rewrite len_N_map. Qed.
+  Lemma skt_app h h' s : rt h' = rt h ++ s -> skt h' = skt h ++ map (norm C) s.
+  Proof. unfold skt. intros ->. apply map_app. Qed.
+  Lemma skt_same h h' : rt h' = rt h -> skt h' = skt h.
+  Proof. unfold skt. now intros ->. Qed.
+  Lemma skt_set h h' p x : rt h' = set_nth (rt h) p x -> skt h' = set_nth (skt h) p (norm C x).
+  Proof. unfold skt. intros ->. apply map_set_nth. Qed.
+
   Definition closed (h h' : handler) : Prop :=
-    (exists s, rt h' = rt h ++ s /\ sforest (nlen h) s) /\ h_pars C h' = h_pars C h.
+    (exists s, skt h' = skt h ++ s /\ WfProofs.sforest unit (nlen h) s) /\ h_pars C h' = h_pars C h.
   Definition frame (h h' : handler) : Prop :=
     forall id f, folds_get (h_folds C h') id = Some f -> folds_get (h_folds C h) id = Some f.
   Definition frame_but (id0 : N) (h h' : handler) : Prop :=
@@ -892,9 +956,10 @@ Section WfC.
   Proof.
     intros [(s1 & R1 & F1) P1] [(s2 & R2 & F2) P2]. split; [|congruence].
     exists (s1 ++ s2). split; [rewrite R2, R1; now rewrite app_assoc|].
-    apply sforest_app; [exact F1|]. unfold nlen in *. rewrite R1, len_N_app in F2. exact F2.
+    apply sforest_app; [exact F1|]. rewrite nlen_skt, R1, len_N_app, <- nlen_skt in F2. exact F2.
   Qed.
-  Lemma sforest_leaves off s : Forall (fun x => is_leaf C x = true) s -> sforest off s.
+  Lemma sforest_leaves off (s : list (Trace.state unit)) :
+    Forall (fun x => is_leaf unit x = true) s -> WfProofs.sforest unit off s.
   Proof.
     revert off. induction s as [|x r IH]; intros off H; [apply sforest_nil|].
     inversion H; subst. change (x :: r) with ([x] ++ r). apply sforest_app; [now apply sforest_leaf|].
@@ -903,7 +968,8 @@ Section WfC.
   Lemma leafstep_closed h h' : leafstep h h' -> closed h h' /\ frame h h'.
   Proof.
     intros [(s & R & L) [P F]]. split.
-    - split; [|exact P]. exists s. split; [exact R|now apply sforest_leaves].
+    - split; [|exact P]. exists (map (norm C) s). split; [now apply skt_app|]. apply sforest_leaves.
+      apply Forall_map. eapply Forall_impl; [|exact L]. intros x. now rewrite norm_leaf.
     - intros id f. now rewrite F.
   Qed.
   Lemma frame_refl h : frame h h.
@@ -939,20 +1005,41 @@ Section WfC.
     rewrite P2, P1 in P2'. inversion P2'. subst f2 rest2. clear P2'.
     rewrite P4, P3 in P4'. injection P4' as Ef4 Er4. subst f4. rewrite <- Er4 in P5. clear Er4.
     split; [|auto].
-    unfold nlen in *.
-    assert (T4 : rt h4 = rt h0 ++ SPar 0 0 :: sl ++ sr).
+    apply skt_app in R1. apply skt_same in R3. apply skt_set in R5. simpl in R1, R5.
+    rewrite !nlen_skt in *.
+    assert (T4 : skt h4 = skt h0 ++ SPar 0 0 :: sl ++ sr).
     { rewrite R4, R3, R2, R1. rewrite <- !app_assoc. reflexivity. }
-    assert (N2 : len_N (rt h2) = len_N (rt h0) + 1 + len_N sl).
+    assert (N2 : len_N (skt h2) = len_N (skt h0) + 1 + len_N sl).
     { rewrite R2, R1, !len_N_app, len_N_one. reflexivity. }
-    assert (N4 : len_N (rt h4) = len_N (rt h0) + 1 + len_N sl + len_N sr).
+    assert (N4 : len_N (skt h4) = len_N (skt h0) + 1 + len_N sl + len_N sr).
     { rewrite R4, R3, len_N_app, N2. reflexivity. }
     split; [|exact P5].
     exists (SPar (len_N sl) (len_N sr) :: sl ++ sr). split.
     - rewrite R5, I3, I1, LS3, V3, V1, N2, N4, T4, N_to_nat_len, set_nth_app_mid.
       f_equal. f_equal; f_equal; lia.
-    - apply sforest_par.
+    - rewrite nlen_skt. apply sforest_par.
       + rewrite R1, len_N_app, len_N_one in FL. exact FL.
       + rewrite R3, N2 in FR. exact FR.
+  Qed.
+
+  (* update_generation: nothing the structure depends on changes *)
+  Lemma closed_update h p g h' :
+    update_generation C h p g = inl h' -> closed h h' /\ h_folds C h' = h_folds C h.
+  Proof.
+    intros H. apply update_generation_spec in H. destruct H as (s & s' & E & RG & R & _ & EP & EF).
+    split; [|exact EF]. split; [|exact EP]. exists []. rewrite app_nil_r. split; [|apply sforest_nil].
+    apply skt_set in R. rewrite R. apply regen_stream in RG. destruct RG as (_ & _ & NM). rewrite <- NM.
+    apply set_nth_same. unfold skt. rewrite nth_error_map.
+    unfold nth_N in E. destruct (p <? N.of_nat (length (rt h))); [|discriminate]. now rewrite E.
+  Qed.
+  Lemma closed_updates us : forall h, closed h (drive_updates C us h) /\ h_folds C (drive_updates C us h) = h_folds C h.
+  Proof.
+    induction us as [|[p g] r IH]; intros h; simpl.
+    - split; [apply closed_refl|reflexivity].
+    - destruct (update_generation C h p g) as [h1|] eqn:U.
+      + apply closed_update in U. destruct U as [C1 F1]. destruct (IH h1) as [C2 F2].
+        split; [eapply closed_trans; eauto|congruence].
+      + apply IH.
   Qed.
 End WfC.
 
@@ -1265,7 +1352,7 @@ Section WfTree.
 
   Lemma closed_same h h' : rt h' = rt h -> h_pars C h' = h_pars C h -> closed h h'.
   Proof.
-    intros R P. split; [|exact P]. exists []. rewrite app_nil_r. split; [exact R|apply sforest_nil].
+    intros R P. split; [|exact P]. exists []. rewrite app_nil_r. split; [now apply skt_same|apply sforest_nil].
   Qed.
 
   Lemma iteration_start_meet chk h id v h' :
@@ -1359,16 +1446,20 @@ Section WfTree.
       { apply (GI (nlen h)); [|exact G2]. intros f G. rewrite F1, folds_get_put_same in G. inversion G. subst f.
         repeat split; auto. rewrite L0, N1. constructor. }
       destruct G as (GI2 & _ & _ & _ & GL).
-      assert (N2 : nlen a0 = nlen h + 1 + len_N s). { unfold nlen in *. rewrite R2, len_N_app, N1. reflexivity. }
+      apply skt_app in R1. apply skt_set in R3. simpl in R1, R3.
+      assert (N2 : nlen a0 = nlen h + 1 + len_N s). { rewrite (nlen_skt _ a0), R2, len_N_app, <- nlen_skt, N1. reflexivity. }
       split.
       + split; [|congruence].
         exists (SFold (ff_result f2) :: s). split.
-        * rewrite R3, R2, R1, GI2. unfold nlen. rewrite N_to_nat_len, <- app_assoc. simpl. apply set_nth_app_mid.
+        * rewrite R3, R2, R1, GI2, nlen_skt, N_to_nat_len, <- app_assoc. simpl. apply set_nth_app_mid.
         * apply sforest_fold; [rewrite <- N2; exact GL|]. rewrite N1 in FS. exact FS.
       + intros i f G. rewrite F3 in G.
         destruct (N.eq_dec i id) as [->|Ne]; [rewrite folds_get_del_same in G; discriminate|].
         rewrite folds_get_del_other in G by exact Ne. apply FB in G; [|exact Ne].
         rewrite F1, folds_get_put_other in G by exact Ne. exact G.
+    - (* DGens *)
+      intros us chk h h' H. cbn in H. inversion H. subst h'. destruct (closed_updates _ us h) as [Cl F].
+      split; [exact Cl|now apply frame_of_eq].
     - (* DNil *) intros chk h h' H. cbn in H. inversion H. subst. split; [apply closed_refl|apply frame_refl].
     - (* DCons *)
       intros d IHd ds IHds chk h h' H. cbn [drive_dts] in H. inv_bind H.
@@ -1471,9 +1562,11 @@ Section WfTree.
   Proof.
     intros ds prev cur h H. unfold drive in H.
     destruct drive_spec as (_ & Hds & _). apply Hds in H. destruct H as [[(s & R & F) _] _].
-    unfold result_trace. change (k_result C (h_keeper C h)) with (rt h). rewrite R.
-    change (rt (handler_from C prev cur)) with (@nil state) in *. simpl. simpl in F.
-    apply sforest_whole. exact F.
+    unfold result_trace. change (k_result C (h_keeper C h)) with (rt h).
+    change (skt C (handler_from C prev cur)) with (@nil (Trace.state unit)) in R.
+    change (nlen (handler_from C prev cur)) with 0 in F. simpl in R.
+    apply sforest_whole in F. unfold wf_struct in *. rewrite <- R in F. unfold skt in F. rewrite len_N_map in F.
+    apply forest_norm. exact F.
   Qed.
 End WfTree.
 
@@ -1498,6 +1591,8 @@ Section DriveEq.
   Lemma drive_dt_fold id gs (h : handler) :
     drive_dt C ceqb chk (DFold id gs) h =
     (do h1 <- meet_fold_start C h id; do h2 <- drive_gens C ceqb chk id gs h1; meet_fold_end C h2 id).
+  Proof. reflexivity. Qed.
+  Lemma drive_dt_gens us (h : handler) : drive_dt C ceqb chk (DGens us) h = Ok (drive_updates C us h).
   Proof. reflexivity. Qed.
   Lemma drive_dts_nil (h : handler) : drive_dts C ceqb chk DNil h = Ok h.
   Proof. reflexivity. Qed.
@@ -1538,7 +1633,7 @@ Section DriveEq.
   Proof. reflexivity. Qed.
 End DriveEq.
 Ltac drive_unfold :=
-  rewrite ?drive_dt_call, ?drive_dt_ap, ?drive_dt_canon, ?drive_dt_par, ?drive_dt_fold, ?drive_dts_nil, ?drive_dts_cons,
+  rewrite ?drive_dt_call, ?drive_dt_ap, ?drive_dt_canon, ?drive_dt_par, ?drive_dt_fold, ?drive_dt_gens, ?drive_dts_nil, ?drive_dts_cons,
     ?drive_gens_nil, ?drive_gens_cons, ?drive_body_plain, ?drive_body_hole, ?drive_hole_more, ?drive_hole_end,
     ?drive_hole_parl, ?drive_hole_parr in *.
 
@@ -1805,6 +1900,31 @@ Section WfD.
       + rewrite folds_get_del_other in Gg by exact Ne. eapply fold_vp_text; [exact T|]. eapply F; eauto.
   Qed.
 
+  Lemma Vinv_update h p g h' : update_generation C h p g = inl h' -> Vinv h -> Vinv h'.
+  Proof.
+    intros H I. apply update_generation_spec in H. destruct H as (s & s' & E & RG & R & _ & EP & EF).
+    apply regen_stream in RG. destruct RG as (S1 & S2 & _).
+    pose proof (nth_N_some _ _ _ E) as L.
+    assert (T : text (rt h) (rt h')).
+    { split.
+      - intros q. unfold is_stream_at. rewrite R. destruct (N.eq_dec p q) as [->|Ne].
+        + rewrite nth_N_set_nth_same by exact L. now rewrite S2.
+        + now rewrite nth_N_set_nth_other.
+      - intros q (x & Ex & Sx). destruct (N.eq_dec p q) as [->|Ne].
+        + rewrite E in Ex. inversion Ex. subst x. congruence.
+        + exists x. split; [|exact Sx]. rewrite R, nth_N_set_nth_other by exact Ne. exact Ex. }
+    eapply Vinv_text_same; eauto.
+    intros q lore x Hq Hx. destruct (N.eq_dec p q) as [->|Ne].
+    - rewrite R, nth_N_set_nth_same in Hq by exact L. inversion Hq. subst s'. discriminate.
+    - rewrite R, nth_N_set_nth_other in Hq by exact Ne. destruct (proj1 I q lore x Hq Hx) as (b & rest & D & Lt & St).
+      exists b, rest. split; [exact D|]. split; [exact Lt|]. now apply (proj1 T).
+  Qed.
+  Lemma Vinv_updates us : forall h, Vinv h -> Vinv (drive_updates C us h).
+  Proof.
+    induction us as [|[p g] r IH]; intros h I; simpl; [exact I|].
+    destruct (update_generation C h p g) as [h1|] eqn:U; apply IH; [eapply Vinv_update; eauto|exact I].
+  Qed.
+
   Theorem drive_chk_Vinv :
     (forall d h h', drive_dt C ceqb true d h = Ok h' -> Vinv h -> Vinv h') /\
     (forall ds h h', drive_dts C ceqb true ds h = Ok h' -> Vinv h -> Vinv h') /\
@@ -1823,7 +1943,7 @@ Section WfD.
              | E : drive_ap C _ _ = Ok _ |- _ => apply drive_ap_leaf in E
              | E : drive_canon C ceqb _ _ = Ok _ |- _ => apply drive_canon_leaf in E
              end;
-      eauto 12 using Vinv_leafstep, Vinv_par_start, Vinv_par_left, Vinv_par_right, Vinv_fold_start, Vinv_iteration_start,
+      eauto 12 using Vinv_updates, Vinv_leafstep, Vinv_par_start, Vinv_par_left, Vinv_par_right, Vinv_fold_start, Vinv_iteration_start,
         Vinv_iteration_end, Vinv_back_iterator, Vinv_generation_end, Vinv_fold_end.
   Qed.
 
@@ -1851,11 +1971,8 @@ Section WfE.
   Notation handler := (handler C).
   Notation rt := (rt C).
 
-  (* the part of a state the forest looks at *)
-  Definition skel (s : state) : option (N * N) + option (list fold_sub_lore) :=
-    match s with SPar l r => inl (Some (l, r)) | SFold lo => inr (Some lo) | _ => inr None end.
   Definition same_skel (t t' : trace) : Prop :=
-    forall i, option_map skel (nth_N t i) = option_map skel (nth_N t' i).
+    forall i, option_map (norm C) (nth_N t i) = option_map (norm C) (nth_N t' i).
 
   Lemma forest_same_skel t t' a b : same_skel t t' -> forest C t a b -> forest C t' a b.
   Proof.
@@ -1871,36 +1988,13 @@ Section WfE.
       econstructor 4; eauto.
   Qed.
 
-  (* what one update does *)
-  Definition regen (s s' : state) : Prop :=
-    match s, s' with
-    | SAp _, SAp [_] => True
-    | SCall (Executed (VRStream c _)), SCall (Executed (VRStream c' _)) => c = c'
-    | _, _ => False
-    end.
-  Lemma update_generation_spec h p g h' :
-    update_generation C h p g = inl h' ->
-    exists s s', nth_N (rt h) p = Some s /\ regen s s' /\ rt h' = set_nth (rt h) (N.to_nat p) s' /\
-      state_no_stub C s' = negb (g =? generation_stub).
-  Proof.
-    unfold update_generation. fold (rt h). destruct (nth_N (rt h) p) as [s|] eqn:E; [|discriminate].
-    destruct s as [| [ | [ | c g0 | ] | ] | gens | | ]; try discriminate; intros H; inversion H; subst; clear H.
-    - exists (SCall (Executed (VRStream c g0))), (SCall (Executed (VRStream c g))). repeat split; auto.
-    - exists (SAp gens), (SAp [g]). repeat split; auto. simpl. now rewrite andb_true_r.
-  Qed.
-  Lemma regen_stream s s' : regen s s' -> is_stream_state C s = true /\ is_stream_state C s' = true /\ skel s = skel s'.
-  Proof.
-    destruct s as [| [ | [ | c g0 | ] | ] | gens | | ]; destruct s' as [| [ | [ | c' g1 | ] | ] | [|g1 [|]] | | ]; simpl; intros H;
-      try contradiction; auto.
-  Qed.
-
   Lemma update_generation_keeps h p g h' :
     update_generation C h p g = inl h' ->
     same_skel (rt h) (rt h') /\ (forall q, is_stream_at C (rt h') q = is_stream_at C (rt h) q) /\
     (forall q s, q <> p -> nth_N (rt h') q = Some s -> nth_N (rt h) q = Some s) /\
     (forall s, nth_N (rt h') p = Some s -> state_no_stub C s = negb (g =? generation_stub)).
   Proof.
-    intros H. apply update_generation_spec in H. destruct H as (s & s' & E & RG & R & NS).
+    intros H. apply update_generation_spec in H. destruct H as (s & s' & E & RG & R & NS & _ & _).
     apply regen_stream in RG. destruct RG as (S1 & S2 & SK).
     pose proof (nth_N_some _ _ _ E) as L.
     split; [|split; [|split]].
